@@ -402,6 +402,13 @@ def work_late(chunk_id, seed, n, binary, wd, part):
             continue
         res, meta = ok[cid], metas[cid]
         part["evaluations"] += 1
+        if not part["samples"] and cid.startswith("s"):
+            part["samples"].append(dict(
+                kind="late failure: solve", mode=meta["mode"],
+                type=meta["sc"].ctype, ports=meta["sc"].p,
+                standards=len(meta["sc"].stds),
+                script=[l[:100] for l in text.split("\n")
+                        if l and not l.startswith("buf ")][:30]))
         contract(res, text, part, where="[late] ")
         if cid.startswith("s"):
             judge_late_solve(res, text, meta, part)
@@ -497,6 +504,10 @@ def work_handles(chunk_id, seed, n, binary, wd, part):
         part["evaluations"] += 1
         contract(ok[cid], text, part, where="[handles] ")
         index_model(ok[cid], text, part, strict=True)
+        if not part["samples"]:
+            part["samples"].append(dict(kind="table history", script=[
+                l[:120] for l in text.split("\n")
+                if l and not l.startswith(("buf ", "dump_"))][:25]))
 
 
 KINDS = {"handles": work_handles, "hist": work_hist, "family": work_family, "twin": work_twin,
@@ -504,10 +515,12 @@ KINDS = {"handles": work_handles, "hist": work_hist, "family": work_family, "twi
 
 
 def work(chunk_id, payload):
-    seed, kind, n, binary, workroot = payload
+    seed, kind, n, binary, workroot, want_sample = payload
     part = new_part()
     wd = os.path.join(workroot, "w%d" % chunk_id)
     KINDS[kind](chunk_id, seed, n, binary, wd, part)
+    if not want_sample:
+        part["samples"] = []
     return part
 
 
@@ -523,8 +536,8 @@ def main():
     payloads = []
     for kind, nchunks, per in plan:
         per = max(1, int(per * chk.args.scale))
-        payloads += [(chk.seed, kind, per, binary, chk.workroot)
-                     for _ in range(nchunks)]
+        payloads += [(chk.seed, kind, per, binary, chk.workroot, i == 0)
+                     for i in range(nchunks)]
     # long chunks first
     for part in R.pmap(work, payloads):
         chk.merge(part)
